@@ -1,83 +1,5 @@
-(* Replays the implementation's case file on the extracted Coq model (correspondence) and on the
-   extracted Spec oracles (direct check of the implementation's outputs).
-   Output: FAIL lines   FAIL <TAB> tag <TAB> detail <TAB> original line
-           a final      STATS <TAB> json
-   tags:  corr:<suite>            model and implementation disagree
-          oracle:<Cxx>:<what>     the implementation's output violates the Spec-level oracle of Cxx *)
 open Lc_model
-
-let nat_of_int (n : int) : nat =
-  let r = ref O in
-  for _ = 1 to n do r := S !r done;
-  !r
-let int_of_nat (n : nat) : int =
-  let rec go acc = function O -> acc | S m -> go (acc + 1) m in
-  go 0 n
-
-(* ---------- term (de)serialisation: V<n> | L t | A l r *)
-let parse_term (s : string) : term =
-  let toks = Array.of_list (List.filter (fun x -> x <> "") (String.split_on_char ' ' s)) in
-  let pos = ref 0 in
-  let rec go () =
-    let t = toks.(!pos) in
-    incr pos;
-    if t = "L" then Abs (go ())
-    else if t = "A" then (let l = go () in let r = go () in App (l, r))
-    else Var (nat_of_int (int_of_string (String.sub t 1 (String.length t - 1))))
-  in
-  go ()
-
-let ser (t : term) : string =
-  let b = Buffer.create 64 in
-  let first = ref true in
-  let sp () = if !first then first := false else Buffer.add_char b ' ' in
-  let rec go = function
-    | Var n -> sp (); Buffer.add_char b 'V'; Buffer.add_string b (string_of_int (int_of_nat n))
-    | Abs t -> sp (); Buffer.add_char b 'L'; go t
-    | App (l, r) -> sp (); Buffer.add_char b 'A'; go l; go r
-  in
-  go t; Buffer.contents b
-
-let order_of_string = function
-  | "NOR" -> NOR | "CBN" -> CBN | "HSP" -> HSP | "HNO" -> HNO
-  | "APP" -> APP | "CBV" -> CBV | "HAP" -> HAP | s -> failwith ("order " ^ s)
-
-let rec tsize = function Var _ -> 1 | Abs b -> 1 + tsize b | App (l, r) -> 1 + tsize l + tsize r
-
-(* ---------- bookkeeping *)
-let fails = ref 0
-let fail_tags : (string, int) Hashtbl.t = Hashtbl.create 16
-let counts : (string, int) Hashtbl.t = Hashtbl.create 16
-let bump tbl k = Hashtbl.replace tbl k (1 + (try Hashtbl.find tbl k with Not_found -> 0))
-let max_fail_lines = 200
-let fail tag detail line =
-  incr fails; bump fail_tags tag;
-  if Hashtbl.find fail_tags tag <= max_fail_lines then
-    Printf.printf "FAIL\t%s\t%s\t%s\n" tag detail line
-let distinct : (string, unit) Hashtbl.t = Hashtbl.create 1024
-let nontrivial = ref 0
-let note_nontrivial key = if not (Hashtbl.mem distinct key) then (Hashtbl.add distinct key (); incr nontrivial)
-let samples : string list ref = ref []
-let nsamples = ref 0
-let sample s = if !nsamples < 12 then (samples := s :: !samples; incr nsamples)
-
-let big_fuel = nat_of_int 400000
-
-let subset (a : nat list) (b : nat list) = List.for_all (fun x -> List.mem x b) a
-let mem_term (t : term) (l : term list) = List.exists (fun u -> term_eqb t u) l
-
-(* bounded check that u is reachable from t in exactly k beta steps (k <= 3) *)
-let rec reach k t u =
-  if k = 0 then term_eqb t u
-  else List.exists (fun v -> reach (k - 1) v u) (reducts t)
-
-(* Spec normaliser: leftmost-outermost iteration, bounded *)
-let normalize (t : term) (max_steps : int) (max_size : int) : term option =
-  let rec go t n =
-    if n > max_steps || tsize t > max_size then None
-    else match step_of NOR t with None -> Some t | Some u -> go u (n + 1)
-  in
-  go t 0
+open Common
 
 (* ---------- apply *)
 let do_apply f line =
@@ -372,6 +294,7 @@ let json_escape s =
   Buffer.contents b
 
 let () =
+  Array.iter (fun a -> if a = "--backslash" then Common.backslash := true) Sys.argv;
   let n = ref 0 in
   (try
      while true do
@@ -396,7 +319,7 @@ let () =
           | "meta-shift" :: r -> bump counts "meta-shift"; do_meta "meta-shift" r line
           | "CRASH" :: r -> fail "oracle:crash" "the implementation crashed (stack overflow / abort) while running this suite" (String.concat " " r)
           | "HANG" :: r -> fail "oracle:hang" "implementation made no progress for 30 s" (String.concat " " r)
-          | _ -> Extra.dispatch fail bump counts note_nontrivial sample f line
+          | _ -> Extra.dispatch f line
         with
         | Stack_overflow -> fail "driver:stack-overflow" "" line
         | Failure m -> fail "driver:failure" m line
